@@ -307,10 +307,10 @@ Definition ex_cands (h : list event) : list cand :=
 Definition ex_x (height : Z) (lk : list (N * N)) : wctx :=
   {| x_height := height; x_maturity := 100; x_locked := lk; x_watch_only := false; x_wallet_wo := false |}.
 Definition ex_r (acct : N) (minconf : Z) (sel : list (N * N)) : request :=
-  {| r_acct := acct; r_scope := None; r_minconf := minconf; r_rate := 1000; r_strategy := Largest;
+  {| r_acct := acct; r_scope := None; r_change_scope := None; r_minconf := minconf; r_rate := 1000; r_strategy := Largest;
      r_explicit := sel; r_allow := fun _ => true; r_dry := false |}.
 Definition ex_rs (sc : kscope) (minconf : Z) : request :=
-  {| r_acct := 0; r_scope := Some sc; r_minconf := minconf; r_rate := 1000; r_strategy := Largest;
+  {| r_acct := 0; r_scope := Some sc; r_change_scope := Some sc; r_minconf := minconf; r_rate := 1000; r_strategy := Largest;
      r_explicit := []; r_allow := fun _ => true; r_dry := false |}.
 Definition ins_of (o : option created) : option (list (N * N)) :=
   match o with Some cr => Some (map c_op (cr_inputs cr)) | None => None end.
@@ -363,7 +363,11 @@ Example C06_nonvacuous_scopes :
   chain_consistent ex_U ex_h9 = true ∧
   map c_op (eligible (ex_x 11 []) (ex_rs (84, 0)%N 1) (ex_cands ex_h9)) = [(2, 1); (2, 0)]%N ∧
   map c_op (eligible (ex_x 11 []) (ex_rs (84, 1)%N 1) (ex_cands ex_h9)) = [(9, 0)]%N ∧
-  map c_op (eligible (ex_x 11 []) (ex_r 0 1 []) (ex_cands ex_h9)) = [(9, 0); (2, 1); (2, 0)]%N.
+  map c_op (eligible (ex_x 11 []) (ex_r 0 1 []) (ex_cands ex_h9)) = [(9, 0); (2, 1); (2, 0)]%N ∧
+  (* a change scope of its own does not move the selection: BIP84 coins, change to (84, 1) *)
+  map c_op (eligible (ex_x 11 []) {| r_acct := 0; r_scope := Some (84, 0)%N; r_change_scope := Some (84, 1)%N;
+                                     r_minconf := 1; r_rate := 1000; r_strategy := Largest; r_explicit := [];
+                                     r_allow := fun _ => true; r_dry := false |} (ex_cands ex_h9)) = [(2, 1); (2, 0)]%N.
 Proof. vm_compute. repeat split. Qed.
 
 (** Publication: tx 8 is the transaction created from (2,0) in the state after
